@@ -42,12 +42,19 @@ inline pbt::Op gen_schedule(size_t approx_decisions) {
         break;
     }
     }
+    // spurious wake-ups of condition waits (bytes of the op: ordinals of the affected waits)
+    if (chance(25)) {
+        size_t k = (size_t)pick(1, 3);
+        for (size_t i = 0; i < k; i++) o.b.push_back((char)pick(0, 30));
+    }
     return o;
 }
 
 inline ds::Config to_config(const pbt::Op *o, uint64_t max_decisions = 50000) {
     ds::Config c;
     c.max_decisions = max_decisions;
+    if (o)
+        for (unsigned char ch : o->b) c.spurious_waits.push_back(ch);
     if (!o || o->a.empty()) return c;
     c.mode = (int)(o->a[0] % 3);
     if (c.mode == ds::WALK) {
